@@ -290,4 +290,103 @@ theorem parse_examples :
     parseFormatName "-lines".toList = ([], true) ∧
     parseFormatName "simplemrs-line".toList = ("simplemrsline".toList, false) := by decide
 
+/-! ## "each equal to what converting and encoding that item on its own gives" and
+"transcoding … and back reproduces the original structures up to the information both formats carry",
+over OPAQUE item codecs with a stated round-trip hypothesis (the hypothesis is what C01–C03 prove for
+the real codecs; here it is composed with the document assembly). -/
+
+/-- an item codec over structures `S`: `carried s` is `s` reduced to what the format carries. -/
+structure ItemCodec (S : Type) where
+  enc : S → Str
+  dec : Str → Option S
+  carried : S → S
+
+/-- the per-item round trip: decoding an encoded structure gives the structure up to what the format
+carries. -/
+def ItemCodec.RoundTrips {S : Type} (k : ItemCodec S) : Prop := ∀ s, k.dec (k.enc s) = some (k.carried s)
+
+/-- every text the item codec writes is an item for the reader of codec module `c` -/
+def ItemCodec.WritesItems {S : Type} (k : ItemCodec S) (c : Codec) (lines : Bool) : Prop :=
+  ∀ s, ItemOk c lines (k.enc s)
+
+def decodeAll {S : Type} (dec : Str → Option S) : List Str → Option (List S)
+  | [] => some []
+  | t :: ts =>
+    match dec t, decodeAll dec ts with
+    | some s, some ss => some (s :: ss)
+    | _, _ => none
+
+/-- the target codec's `loads` (or the line reader + `decode` for `-lines`): split, then decode each item -/
+def loadsDoc {S : Type} (c : Codec) (k : ItemCodec S) (lines : Bool) (doc : Str) : Option (List S) :=
+  match readBack c lines doc with
+  | some its => decodeAll k.dec its
+  | none => none
+
+/-- what `convert` writes for already converted structures `xs` -/
+def writeDoc {S : Type} (c : Codec) (k : ItemCodec S) (indent lines : Bool) (xs : List S) : Str :=
+  assemble (frameOf c) indent lines (xs.map k.enc)
+
+theorem decodeAll_enc {S : Type} (k : ItemCodec S) (hk : k.RoundTrips) :
+    ∀ xs : List S, decodeAll k.dec (xs.map k.enc) = some (xs.map k.carried)
+  | [] => rfl
+  | x :: xs => by
+    simp only [List.map_cons, decodeAll, hk x, decodeAll_enc k hk xs]
+
+/-- N items converted by `cv` (the identity within one representation) and written to any readable
+target: the target reads back exactly N structures, the i-th being what converting and encoding the
+i-th item on its own gives (`dec (enc (cv x)) = some (carried (cv x))`), in order; with or without
+indent and `-lines`. -/
+theorem loads_convert {S T : Type} (c : Codec) (hc : c ∈ codecs) (hfam : familyOf c ≠ .export)
+    (k : ItemCodec T) (hk : k.RoundTrips) (indent lines : Bool) (hw : k.WritesItems c lines)
+    (cv : S → T) (xs : List S) :
+    loadsDoc c k lines (writeDoc c k indent lines (xs.map cv)) = some (xs.map (fun x => k.carried (cv x))) := by
+  unfold loadsDoc writeDoc
+  rw [target_reads_back c hc hfam indent lines _ (by
+    intro it hit
+    obtain ⟨s, _, rfl⟩ := List.mem_map.mp hit
+    exact hw s)]
+  show decodeAll k.dec (List.map k.enc (List.map cv xs)) = _
+  rw [decodeAll_enc k hk (xs.map cv), List.map_map]
+  rfl
+
+/-- Same-representation transcoding there and back: structures `xs` written in format B, read, written
+in format A, read — N structures again, the i-th being the i-th original reduced to what B carries and
+then to what A carries (`carriedA ∘ carriedB`), whatever indent / `-lines` options each leg uses. -/
+theorem transcode_there_and_back {S : Type}
+    (cA cB : Codec) (hA : cA ∈ codecs) (hB : cB ∈ codecs)
+    (hfA : familyOf cA ≠ .export) (hfB : familyOf cB ≠ .export)
+    (kA kB : ItemCodec S) (hkA : kA.RoundTrips) (hkB : kB.RoundTrips)
+    (iA lA iB lB : Bool) (hwA : kA.WritesItems cA lA) (hwB : kB.WritesItems cB lB) (xs : List S) :
+    ∃ ys, loadsDoc cB kB lB (writeDoc cB kB iB lB xs) = some ys ∧
+      loadsDoc cA kA lA (writeDoc cA kA iA lA ys) = some (xs.map (fun x => kA.carried (kB.carried x))) := by
+  refine ⟨xs.map kB.carried, ?_, ?_⟩
+  · have := loads_convert cB hB hfB kB hkB iB lB hwB (fun x : S => x) xs
+    simpa using this
+  · have := loads_convert cA hA hfA kA hkA iA lA hwA kB.carried xs
+    simpa using this
+
+/-- … so when format B carries everything format A carries of a structure that was read from A
+(`carriedA (carriedB (carriedA x)) = carriedA x`), a document read from A, transcoded to B and back,
+reads as the original structures. -/
+theorem transcode_identity_on_common {S : Type}
+    (cA cB : Codec) (hA : cA ∈ codecs) (hB : cB ∈ codecs)
+    (hfA : familyOf cA ≠ .export) (hfB : familyOf cB ≠ .export)
+    (kA kB : ItemCodec S) (hkA : kA.RoundTrips) (hkB : kB.RoundTrips)
+    (iA lA iB lB : Bool) (hwA : kA.WritesItems cA lA) (hwB : kB.WritesItems cB lB)
+    (hcommon : ∀ x, kA.carried (kB.carried (kA.carried x)) = kA.carried x) (zs : List S) :
+    ∃ ys, loadsDoc cB kB lB (writeDoc cB kB iB lB (zs.map kA.carried)) = some ys ∧
+      loadsDoc cA kA lA (writeDoc cA kA iA lA ys) = some (zs.map kA.carried) := by
+  obtain ⟨ys, h1, h2⟩ := transcode_there_and_back cA cB hA hB hfA hfB kA kB hkA hkB iA lA iB lB hwA hwB
+    (zs.map kA.carried)
+  refine ⟨ys, h1, ?_⟩
+  rw [h2, List.map_map]
+  congr 1
+  apply List.map_congr_left
+  intro x _
+  exact hcommon x
+
+/-- the hypotheses are satisfiable: a codec writing `{n}`-style items (here: the text itself, for texts
+that are JSON items) round-trips through the JSON family -/
+example : (⟨fun s => s, fun t => some t, fun s => s⟩ : ItemCodec Str).RoundTrips := fun _ => rfl
+
 end Verif.C20
